@@ -39,6 +39,11 @@ EXTRA_TRANSFORMS = [
     ("truncate -s 1 $IN", ["--in-place", "--no-copy"], "writes-in"),
     ("dd if=$IN of=$OUT status=none", ["--no-copy"], "read"),
     ("true $OUT", [], "ignore"),
+    # programs that WRITE to their $IN argument although --in-place / --no-copy is not given: they must be working
+    # on the private copy, whatever the permissions of the scanned file are (sed -i replaces the file by rename)
+    ("sed -i s/a/b/g $IN", [], "writes-copy"),
+    ("truncate -s 1 $IN", [], "writes-copy"),
+    ("chmod 600 $IN", [], "writes-copy"),
 ]
 
 
@@ -51,6 +56,8 @@ def gen_case(seed, i):
     for e in world.entries:
         if e["t"] == "f":
             e["c"]["text"] = 1
+            if rng.random() < 0.25:
+                e["mode"] = rng.choice([0o444, 0o400, 0o555, 0o600])      # read-only and odd permissions
     case = {"i": i, "cfg": cfg, "world": world.to_json(), "roots": roots, "seam_seed": rng.randint(1, 10**9)}
     if rng.random() < 0.6:
         case["kind"] = "group"
